@@ -77,62 +77,141 @@ def _tofloat(tok):
 _CHAIN_RE = re.compile(r'\(\s*(-?\d+)\s*,\s*(-?\d+)\s*\)')
 
 
+class _Tokens:
+    """The file as a stream of blank-separated tokens: TRIPOLI-4 input is
+    free-format, so no rule may depend on how statements are laid out on
+    lines.  ``//`` comments are removed and kept per line; a statement's
+    comment is what follows it on the lines it spans."""
+
+    def __init__(self, lines, first):
+        self.toks = []
+        self.line = []
+        self.comments = {}
+        self.lines = lines
+        for num in range(first, len(lines)):
+            code, sep, comment = lines[num].partition('//')
+            if sep:
+                self.comments[num] = comment.strip()
+            for tok in code.split():
+                self.toks.append(tok)
+                self.line.append(num)
+        self.pos = 0
+
+    def peek(self):
+        return self.toks[self.pos] if self.pos < len(self.toks) else None
+
+    def next(self):
+        tok = self.peek()
+        self.pos += 1
+        return tok
+
+    def done(self):
+        return self.pos >= len(self.toks)
+
+    def until(self, stops):
+        out = []
+        while not self.done() and self.peek() not in stops:
+            out.append(self.next())
+        return out
+
+    def rest_of_line(self):
+        """Skip to the first token of the next line."""
+        if self.pos == 0:
+            return
+        cur = self.line[self.pos - 1]
+        while not self.done() and self.line[self.pos] == cur:
+            self.pos += 1
+
+    def span(self, first, last):
+        """(raw text, comment) of the statement made of tokens
+        first..last-1."""
+        if first >= len(self.toks):
+            return '', ''
+        low = self.line[first]
+        high = self.line[max(first, min(last, len(self.toks)) - 1)]
+        raw = '\n'.join(self.lines[low:high + 1])
+        comment = ' '.join(self.comments[n] for n in range(low, high + 1)
+                           if self.comments.get(n))
+        return raw, comment
+
+
+_GEOM_KW = ('TITLE', 'HASH_TABLE', 'TRANSFORM', 'SURF', 'VOLU', 'ENDG')
+
+
 def parse(text):
-    '''Parse the text of a written file.  Never raises on rule violations:
-    they are recorded in ``.problems`` with the name of the broken rule.'''
+    """Parse the text of a written file.  Never raises on rule violations:
+    they are recorded in ``.problems`` with the name of the broken rule."""
     t4 = T4File()
     lines = text.split('\n')
     i = 0
     while i < len(lines) and lines[i].startswith('//'):
         t4.header.append(lines[i])
         i += 1
+    ts = _Tokens(lines, i)
     section = 'pre'
-    nlines = len(lines)
-    while i < nlines:
-        raw = lines[i]
-        i += 1
-        code, _, comment = raw.partition('//')
-        toks = code.split()
-        if not toks:
-            continue
-        head = toks[0]
+    while not ts.done():
+        first = ts.pos
+        head = ts.next()
         if section == 'pre':
             if head == 'GEOMETRY':
                 section = 'geom'
             elif head == 'LANG':
-                pass
+                ts.next()
             else:
-                t4.problem('layout', f'unexpected line before GEOMETRY: {raw!r}')
+                t4.problem('layout', f'unexpected token before GEOMETRY: '
+                           f'{head!r}')
             continue
         if section == 'geom':
-            if head in ('TITLE', 'HASH_TABLE'):
-                continue
-            if head == 'TRANSFORM':
+            if head == 'TITLE':
+                ts.rest_of_line()       # free text up to the end of the line
+            elif head == 'HASH_TABLE':
+                pass
+            elif head == 'TRANSFORM':
+                toks = [head] + ts.until(_GEOM_KW)
+                raw, _ = ts.span(first, ts.pos)
                 _parse_transform(t4, toks, raw)
             elif head == 'SURF':
-                _parse_surf(t4, toks, comment.strip(), raw)
+                toks = [head] + _surf_tokens(ts)
+                raw, comment = ts.span(first, ts.pos)
+                _parse_surf(t4, toks, comment, raw)
             elif head == 'VOLU':
-                _parse_volu(t4, toks, comment.strip(), raw)
+                toks = [head] + ts.until(('ENDV',) + _GEOM_KW)
+                if ts.peek() == 'ENDV':
+                    toks.append(ts.next())
+                raw, comment = ts.span(first, ts.pos)
+                _parse_volu(t4, toks, comment, raw)
             elif head == 'ENDG':
                 section = 'post'
             else:
-                t4.problem('layout', f'unexpected line in GEOMETRY: {raw!r}')
+                t4.problem('layout', f'unexpected token in GEOMETRY: {head!r}'
+                           f' (line {lines[ts.line[first]]!r})')
             continue
-        if section == 'post':
-            if head == 'COMPOSITION':
-                t4.has_compo = True
-                i = _parse_composition(t4, lines, i)
-            elif head == 'GEOMCOMP':
-                t4.has_geomcomp = True
-                i = _parse_geomcomp(t4, lines, i)
-            elif head == 'BOUNDARY_CONDITION':
-                t4.has_bc = True
-                i = _parse_bc(t4, lines, i)
-            else:
-                t4.problem('layout', f'unexpected line after ENDG: {raw!r}')
+        if head == 'COMPOSITION':
+            t4.has_compo = True
+            _parse_composition(t4, ts)
+        elif head == 'GEOMCOMP':
+            t4.has_geomcomp = True
+            _parse_geomcomp(t4, ts)
+        elif head == 'BOUNDARY_CONDITION':
+            t4.has_bc = True
+            _parse_bc(t4, ts)
+        else:
+            t4.problem('layout', f'unexpected token after ENDG: {head!r}')
     if section != 'post':
         t4.problem('layout', 'GEOMETRY block not closed by ENDG')
     return t4
+
+
+def _surf_tokens(ts):
+    """Tokens of one SURF statement after the keyword: id [TRANSFORM id] type
+    params..., the parameters running up to the next statement keyword."""
+    toks = [ts.next()]
+    if ts.peek() == 'TRANSFORM':
+        toks.append(ts.next())
+        toks.append(ts.next())
+    toks = [t for t in toks if t is not None]
+    toks.extend(ts.until(_GEOM_KW))
+    return toks
 
 
 def _parse_transform(t4, toks, raw):
@@ -235,8 +314,6 @@ def _parse_volu(t4, toks, comment, raw):
         elif tok == 'ENDV':
             ended = True
             k += 1
-            if k != len(toks):
-                t4.problem('volu-syntax', f'tokens after ENDV: {raw!r}')
             break
         else:
             t4.problem('volu-syntax', f'unexpected token {tok!r} in {raw!r}')
@@ -253,120 +330,109 @@ def _parse_volu(t4, toks, comment, raw):
     t4.volu_order.append(vol.id)
 
 
-def _parse_composition(t4, lines, i):
-    # count line
-    while i < len(lines) and not lines[i].strip():
-        i += 1
-    tok = lines[i].strip() if i < len(lines) else ''
-    i += 1
-    if _INT_RE.match(tok):
-        t4.compo_declared = int(tok)
+_COMPO_KW = ('POINT_WISE', 'DENSITY', 'END_COMPOSITION')
+
+
+def _parse_composition(t4, ts):
+    tok = ts.peek()
+    if tok is not None and _INT_RE.match(tok):
+        t4.compo_declared = int(ts.next())
     else:
-        t4.problem('compo-syntax', f'COMPOSITION count line: {tok!r}')
-    while i < len(lines):
-        raw = lines[i]
-        toks = raw.split()
-        i += 1
-        if not toks:
+        t4.problem('compo-syntax', f'COMPOSITION count: {tok!r}')
+    while not ts.done():
+        first = ts.pos
+        head = ts.next()
+        if head == 'END_COMPOSITION':
+            return
+        if head not in ('POINT_WISE', 'DENSITY'):
+            t4.problem('compo-syntax', f'unexpected token {head!r}')
+            ts.until(_COMPO_KW)
             continue
-        if toks[0] == 'END_COMPOSITION':
-            return i
-        if toks[0] == 'POINT_WISE':
-            # POINT_WISE temp name n
-            if len(toks) != 4 or not _INT_RE.match(toks[3]):
-                t4.problem('compo-syntax', raw)
-                continue
-            comp = {'kind': 'POINT_WISE', 'temp': toks[1], 'name': toks[2],
-                    'n': int(toks[3]), 'density': None, 'nb_atom': False,
-                    'items': []}
-        elif toks[0] == 'DENSITY':
-            # DENSITY temp name rho [NB_ATOM] n
-            rest = toks[3:]
-            nb_atom = 'NB_ATOM' in rest
-            rest = [t for t in rest if t != 'NB_ATOM']
-            if len(rest) != 2 or not _INT_RE.match(rest[1]):
-                t4.problem('compo-syntax', raw)
-                continue
-            comp = {'kind': 'DENSITY', 'temp': toks[1], 'name': toks[2],
-                    'n': int(rest[1]), 'density': rest[0],
-                    'nb_atom': nb_atom, 'items': []}
-            val = _tofloat(rest[0])
+        temp = ts.next()
+        name = ts.next()
+        density = None
+        nb_atom = False
+        if head == 'DENSITY':
+            density = ts.next()
+            if ts.peek() == 'NB_ATOM':
+                nb_atom = True
+                ts.next()
+        count = ts.next()
+        body = ts.until(_COMPO_KW)
+        raw, _ = ts.span(first, ts.pos)
+        if (temp is None or name is None or count is None
+                or not _INT_RE.match(count)
+                or (head == 'DENSITY' and density is None)):
+            t4.problem('compo-syntax', raw)
+            continue
+        comp = {'kind': head, 'temp': temp, 'name': name, 'n': int(count),
+                'density': density, 'nb_atom': nb_atom, 'items': []}
+        if density is not None:
+            val = _tofloat(density)
             if val is None or not math.isfinite(val):
                 t4.problem('numeric-field', f'density in {raw!r}')
-        else:
-            t4.problem('compo-syntax', f'unexpected line {raw!r}')
-            continue
-        while i < len(lines):
-            nxt = lines[i].split()
-            if not nxt:
-                # a blank line ends the item list (m0 block) or is noise
-                break
-            if nxt[0] in ('POINT_WISE', 'DENSITY', 'END_COMPOSITION'):
-                break
-            i += 1
-            if len(nxt) != 2:
-                t4.problem('compo-syntax', f'nuclide line {lines[i-1]!r}')
-                continue
-            val = _tofloat(nxt[1])
+        if len(body) % 2:
+            t4.problem('compo-syntax', f'nuclide list of {name}: odd number '
+                       f'of tokens in {raw!r}')
+        for k in range(0, len(body) - 1, 2):
+            val = _tofloat(body[k + 1])
             if val is None or not math.isfinite(val):
-                t4.problem('numeric-field', f'nuclide amount {lines[i-1]!r}')
-            comp['items'].append((nxt[0], nxt[1]))
+                t4.problem('numeric-field', f'nuclide amount {body[k]} '
+                           f'{body[k + 1]} in {name}')
+            comp['items'].append((body[k], body[k + 1]))
         if comp['n'] != len(comp['items']):
             t4.problem('declared-count', f"composition {comp['name']} declares"
                        f" {comp['n']} nuclides, {len(comp['items'])} follow")
         t4.compositions.append(comp)
     t4.problem('layout', 'COMPOSITION not closed')
-    return i
 
 
-def _parse_geomcomp(t4, lines, i):
-    while i < len(lines):
-        raw = lines[i]
-        toks = raw.split()
-        i += 1
-        if not toks:
+def _parse_geomcomp(t4, ts):
+    while not ts.done():
+        name = ts.next()
+        if name == 'END_GEOMCOMP':
+            return
+        count = ts.peek()
+        if _INT_RE.match(name) or count is None or not _INT_RE.match(count):
+            t4.problem('geomcomp-syntax', f'{name} {count}')
             continue
-        if toks[0] == 'END_GEOMCOMP':
-            return i
-        if len(toks) < 2 or not _INT_RE.match(toks[1]):
-            t4.problem('geomcomp-syntax', raw)
-            continue
-        items = toks[2:]
+        ts.next()
+        items = []
+        # volume numbers run up to the next composition name
+        while not ts.done() and ts.peek() != 'END_GEOMCOMP' and (
+                _tofloat(ts.peek()) is not None):
+            items.append(ts.next())
         bad = [t for t in items if not _INT_RE.match(t)]
         if bad:
-            t4.problem('integer-reference', f'GEOMCOMP {toks[0]}: {bad}')
+            t4.problem('integer-reference', f'GEOMCOMP {name}: {bad}')
         ids = [int(t) for t in items if _INT_RE.match(t)]
-        if int(toks[1]) != len(items):
-            t4.problem('declared-count', f'GEOMCOMP {toks[0]} declares '
-                       f'{toks[1]} volumes, {len(items)} follow')
-        t4.geomcomp.append((toks[0], int(toks[1]), ids))
+        if int(count) != len(items):
+            t4.problem('declared-count', f'GEOMCOMP {name} declares '
+                       f'{count} volumes, {len(items)} follow')
+        t4.geomcomp.append((name, int(count), ids))
     t4.problem('layout', 'GEOMCOMP not closed')
-    return i
 
 
-def _parse_bc(t4, lines, i):
-    while i < len(lines) and not lines[i].strip():
-        i += 1
-    tok = lines[i].strip() if i < len(lines) else ''
-    i += 1
-    if _INT_RE.match(tok):
-        t4.bc_declared = int(tok)
+def _parse_bc(t4, ts):
+    tok = ts.peek()
+    if tok is not None and _INT_RE.match(tok):
+        t4.bc_declared = int(ts.next())
     else:
-        t4.problem('bc-syntax', f'BOUNDARY_CONDITION count line: {tok!r}')
-    while i < len(lines):
-        raw = lines[i]
-        toks = raw.split()
-        i += 1
-        if not toks:
+        t4.problem('bc-syntax', f'BOUNDARY_CONDITION count: {tok!r}')
+    while not ts.done():
+        head = ts.next()
+        if head == 'END_BOUNDARY_CONDITION':
+            return
+        if head != 'ALL_COMPLETE':
+            t4.problem('bc-syntax', f'unexpected token {head!r}')
             continue
-        if toks[0] == 'END_BOUNDARY_CONDITION':
-            return i
-        if len(toks) != 3 or toks[0] != 'ALL_COMPLETE':
-            t4.problem('bc-syntax', raw)
+        kind = ts.next()
+        sid = ts.next()
+        if kind is None or sid is None:
+            t4.problem('bc-syntax', 'truncated ALL_COMPLETE entry')
             continue
-        t4.bc.append((toks[1], toks[2]))
+        t4.bc.append((kind, sid))
     t4.problem('layout', 'BOUNDARY_CONDITION not closed')
-    return i
 
 
 RULES = ('layout', 'unique-surf', 'unique-volu', 'unique-transform',
